@@ -6,6 +6,7 @@ use once_cell::sync::OnceCell;
 
 use super::context::ZervTemplateContext;
 use super::functions::register_functions;
+use crate::cli::utils::output_formatter::OutputFormatter;
 use crate::error::ZervError;
 use crate::version::Zerv;
 
@@ -80,6 +81,14 @@ where
         let tera = self.get_tera()?;
         let context = self.create_context(zerv)?;
 
+        // `pep440` / `pep440_obj` would show silently changed numbers for a version that PEP 440
+        // cannot hold: refuse it like --output-format pep440 does
+        if let Some(z) = zerv
+            && self.mentions_pep440()
+        {
+            OutputFormatter::check_pep440_range(z)?;
+        }
+
         tera.render("template", &context)
             .map(|s| s.trim().to_string())
             .map_err(|e| {
@@ -88,6 +97,16 @@ where
                     self.template, e
                 ))
             })
+    }
+
+    /// Whether the template refers to the `pep440` / `pep440_obj` variables (not `label_pep440`)
+    fn mentions_pep440(&self) -> bool {
+        self.template.match_indices("pep440").any(|(i, _)| {
+            !self.template[..i]
+                .chars()
+                .next_back()
+                .is_some_and(|c| c.is_alphanumeric() || c == '_')
+        })
     }
 
     /// Create template context from Zerv object
